@@ -264,6 +264,36 @@ def accumulate_rules(run, db):
                   'and tile is no longer its adjoint' % (ast.unparse(c), ast.unparse(narrow[0].value) if narrow else ''), f.loc(c))
 
 
+def live_state_rules(run, db):
+    """The detector's container width and ADC ceiling are decided from the same, live bit depth."""
+    from .purity import derived_attr_staleness
+    ci = db.cls(D + 'Detector')
+    res = derived_attr_staleness(ci)
+    for fi, a, sattr, node in res:
+        run.finding('C16.clamp', fi.qual, 'self.%s vs self.%s' % (a, sattr), '%s combines the live attribute self.%s with self.%s, which __init__ derived from it once: after `det.%s = ...` the two disagree '
+                    '(e.g. the ADC ceiling of the new bit depth is cast into the container chosen for the old one)' % (fi.name, sattr, a, sattr), fi.loc(node))
+    if not res:
+        run.ok('C16.clamp', ci.qual, 'no method mixes a live attribute with a value derived from it at construction')
+    # per-channel quantities are paired with planes obtained through the layout-aware helper
+    f = db.func('prysm.bayer.wb_prescale')
+    zips = [c for c in walk_no_nested(f.node) if isinstance(c, ast.Call) and isinstance(c.func, ast.Name) and c.func.id == 'zip' and any('saturation' in ast.unparse(a) for a in c.args)]
+    if not zips:
+        raise AnalysisError('wb_prescale: pairing of planes with saturation levels not found')
+    defs = {}
+    for n in walk_no_nested(f.node):
+        if isinstance(n, ast.Assign) and isinstance(n.targets[0], ast.Name):
+            defs.setdefault(n.targets[0].id, []).append(n.value)
+    for z in zips:
+        other = [a for a in z.args if 'saturation' not in ast.unparse(a)]
+        ok = bool(other)
+        for a in other:
+            vals = defs.get(a.id, []) if isinstance(a, ast.Name) else [a]
+            ok = ok and bool(vals) and all(isinstance(v, ast.Call) and ast.unparse(v.func) == 'decomposite_bayer' and any(isinstance(x, ast.Name) and x.id == 'cfa' for x in list(v.args) + [k.value for k in v.keywords]) for v in vals)
+        run.check(ok, 'C16.bayer', f.qual, 'saturation pairing', 'the (r, g1, g2, b) saturation levels are paired with the planes decomposite_bayer(mosaic, cfa) returns in that colour order',
+                  '`%s` pairs the per-colour saturation levels with %s, which is not the colour-ordered output of decomposite_bayer(mosaic, cfa): for bggr data red and blue levels are applied to each other\'s sites'
+                  % (ast.unparse(z), [ast.unparse(a) for a in other]), f.loc(z))
+
+
 def bin_rules(run, db):
     from . import ftkernels as K
     from ..domains.index import Shaped
@@ -360,7 +390,7 @@ def check(run, db, tier):
     run.rule('C16.bayer', 'site slices partition the 2x2 cell; every function maps colours to the same sites for both layouts; demosaicking copies raw samples at native sites')
     run.rule('C16.kernel', 'each Malvar kernel sums to one after its normalisation')
     run.rule('C16.bin', "bindown reduces the factor axes with mean/sum; tile scales by 1/prod(factor) ('sum') or 1 ('avg'); the two views are transposes")
-    for fn in (clamp_rules, bayer_rules, cfa_passthrough_rules, bin_rules, accumulate_rules):
+    for fn in (clamp_rules, live_state_rules, bayer_rules, cfa_passthrough_rules, bin_rules, accumulate_rules):
         run.group(fn, run, db)
     run.require_instances('C16.bayer', 15)
     run.require_instances('C16.kernel', 4)
